@@ -76,6 +76,7 @@ _g("G-2CYC", [("S", "T"), ("T", "S"), ("A", "A"), ("T", "A"), ("A", "a"), ("S", 
 _g("G-MLR", [("S", "a A e"), ("S", "b B e"), ("A", "B x"), ("B", "A z"), ("A", "c"), ("B", "d"), ("A", "C y"), ("C", "c")],
    V=("a", "b", "c", "d", "e", "x", "y", "z"), note="mutually left-recursive A, B with further left corners, entered from two different rules of S")
 _g("G-DIA", [("S", "A"), ("S", "B"), ("B", "A"), ("A", "a"), ("B", "b"), ("A", "a A")], note="unary diamond: A is reached from S by unary paths of different length")
+_g("G-DIA2", [("S", "X b"), ("X", "A"), ("X", "B"), ("B", "A"), ("A", "a"), ("B", "a a"), ("S", "X")], note="unary diamond below another symbol: X -> A | B, B -> A")
 _g("G-MB", [("S", "é S"), ("S", "ab"), ("S", "€ T"), ("T", "𝄞"), ("T", "x"), ("S", "é")],
    V=("é", "ab", "€", "𝄞", "x"), note="multi-character and multi-byte terminals")
 
@@ -116,7 +117,7 @@ _a("A-DAG2", [(0, "a", 1), (0, "a", 2), (1, "b", 3), (2, "b", 3), (2, "b", 4), (
 _a("A-DEAD", [(0, "a", 1), (0, "a", 2), (1, "b", 3), (0, "b", 5), (4, "a", 1)], init=[0], final=[3],
    note="arc into a dead state 2 / 5 and an unreachable state 4")
 _a("A-D3", [(0, "a", 1), (0, "a", 2), (1, "b", 3), (2, "b", 3)], init=[0], final=[3], note="a*b + a*c style: two paths, 4 arc weights")
-_a("A-D4", [(0, "a", 1), (0, "a", 2), (0, "b", 1), (0, "b", 2), (1, "c", 3), (2, "c", 3)], init=[0], final=[3],
+_a("A-D4", [(0, "a", 1), (0, "a", 2), (0, "b", 1), (0, "b", 2), (1, "c", 3), (2, "c", 3), (2, "d", 3)], init=[0], final=[3],
    note="two prefixes reach the same state set {1,2} with different residual proportions")
 _a("A-CYC", [(0, "a", 1), (0, "a", 2), (1, "b", 0), (2, "b", 0), (0, "c", 3)], init=[0], final=[3],
    note="cyclic but determinisable: both branches return to state 0 (residuals renormalise to the same subset)")
